@@ -217,6 +217,12 @@ func (sc *serverConn) Serve() error {
 		if sc.pingTimer != nil {
 			sc.pingTimer.Stop()
 		}
+		// The stream loop is over, so all that is left is to get what is queued
+		// to the peer, the GOAWAY included. A peer that has stopped reading
+		// must not be able to hold the write loop in that Write for ever: it is
+		// the write loop that closes the connection, the read loop waits for
+		// that when the peer is silent, and ServeConn waits for the read loop.
+		sc.boundWrites()
 		// Tell the write loop to drain what is queued and stop. The channel
 		// itself is never closed: anything still holding a frame would panic
 		// trying to hand it over.
@@ -1162,19 +1168,33 @@ func (sc *serverConn) writeGoAway(strm uint32, code ErrorCode, message string) {
 
 	fr.SetBody(ga)
 
+	// From here on the connection is only being wound down, and a peer that
+	// has stopped reading must not be able to stall that: every write gets a
+	// deadline (see writeLoop). This first one also ends a Write the loop is
+	// already blocked in, behind which this GOAWAY, and with a full queue the
+	// goroutine sending it, would otherwise wait for ever.
+	atomic.StoreInt32((*int32)(&sc.state), int32(connStateClosed))
+	sc.boundWrites()
+
 	sc.write(fr)
 
 	if strm != 0 {
 		atomic.StoreUint32(&sc.closeRef, sc.lastID)
 	}
 
-	atomic.StoreInt32((*int32)(&sc.state), int32(connStateClosed))
-
 	if sc.debug {
 		sc.logger.Printf(
 			"%s: GoAway(stream=%d, code=%s): %s\n",
 			sc.c.RemoteAddr(), strm, code, message,
 		)
+	}
+}
+
+// boundWrites gives the peer writeDrainTimeout to take what is written next,
+// and ends a write that is already waiting for it after that long.
+func (sc *serverConn) boundWrites() {
+	if sc.c != nil {
+		_ = sc.c.SetWriteDeadline(time.Now().Add(writeDrainTimeout))
 	}
 }
 
@@ -1860,6 +1880,12 @@ func (sc *serverConn) writeLoop() {
 		var err error
 
 		verifPoint("srv.write")
+
+		// Once a GOAWAY has been sent the peer gets writeDrainTimeout per
+		// write to take what it is still owed.
+		if atomic.LoadInt32((*int32)(&sc.state)) == int32(connStateClosed) {
+			sc.boundWrites()
+		}
 
 		// A response header block larger than a frame is continued in
 		// CONTINUATION frames. It is split here, on the only goroutine that
